@@ -44,8 +44,8 @@ theorem cStmt_c : ∀ (st : Stmt) (lb : Nat), cgStmt lv st = true → (∀ n ∈
   | .switch hdr cs, lb, hg, hu, env, he => by
     simp only [cgStmt, Bool.and_eq_true, Bool.not_eq_true', decide_eq_true_eq] at hg
     simp only [cStmt, toSrcStmt]
-    exact switch_pm cx fuel env he hdr cs _ hg.1.1.1.1.2 hg.1.1.1.2 (by intro h; rw [h] at hg; simp [Cases.isNil] at hg) hg.1.2
-      (cCases_c cs lb hdr.name hg.2 (fun n hn => hu n (by simp [mlStmt, mlStmts, mlElifs, mlCases, hn])))
+    exact switch_pm cx fuel env he hdr cs _ hg.1.1.1.2 hg.1.1.2 hg.1.2
+      (cCases_c cs lb hdr.name true hg.2 (fun n hn => hu n (by simp [mlStmt, mlStmts, mlElifs, mlCases, hn])))
   | .forever body, lb, hg, hu, env, he => by
     simp only [cgStmt, Bool.and_eq_true] at hg
     simp only [cStmt, toSrcStmt]
@@ -139,30 +139,54 @@ theorem cElifsB_c : ∀ (es : Elifs) (lb : Nat), cgElifs lv es = true → (∀ n
       · have hn : a.neg = neg := ha.1
         simp only [elifsBack, backOf, patchNone_append, hbk, hn]
         cases neg <;> rfl
-theorem cCases_c : ∀ (cs : Cases) (lb : Nat) (sw : String), cgCases lv sw cs = true → (∀ n ∈ mlCases cs, n ∈ cx.defs) →
-    CasesC cx fuel sw cs (fun endL bps st => cCases [] lb endL cs bps st)
-  | .nil, lb, sw, _, hu => by
+theorem cStmts_falls : ∀ (ss : Stmts) (lb : Nat), 0 ≤ fuel → cgStmts lv ss = true → (∀ n ∈ mlStmts ss, n ∈ cx.defs) → endsFlowStmts ss = true →
+    ∀ (s : St) (ops : List LItem) (s' : St), cStmts [] lb ss s = .ok (ops, s') → falls ops = false
+  | .nil, lb, _, _, _, he => by simp [endsFlowStmts] at he
+  | .cons st .nil, lb, _, hg, hu, he => by
+    intro s ops s' h
+    simp only [endsFlowStmts] at he
+    simp only [cStmts, bind_ok, pure_ok] at h
+    obtain ⟨a, s1, h1, bb, s2, h2, h3⟩ := h
+    simp only [Prod.mk.injEq] at h2 h3
+    obtain ⟨rfl, rfl⟩ := h2
+    obtain ⟨rfl, rfl⟩ := h3
+    simpa using ends_items he h1
+  | .cons st (.cons st2 r), lb, hf0, hg, hu, he => by
+    intro s ops s' h
+    simp only [endsFlowStmts] at he
+    simp only [cgStmts, Bool.and_eq_true] at hg
+    rw [cStmts] at h
+    simp only [bind_ok, pure_ok] at h
+    obtain ⟨a, s1, h1, bb, s2, h2, h3⟩ := h
+    simp only [Prod.mk.injEq] at h3
+    obtain ⟨rfl, rfl⟩ := h3
+    have pA := cStmt_c st lb hg.1 (fun n hn => hu n (by simp [mlStmts, hn])) {} (envOK_empty cx) _ _ _ h1
+    have hne : bb ≠ [] := cStmts_cons_ne lv st2 r _ hg.2.1 _ _ _ h2
+    rw [falls_append a bb hne pA.last]
+    exact cStmts_falls (.cons st2 r) _ hf0 (by simp [cgStmts, hg.2.1, hg.2.2]) (fun n hn => hu n (by
+      simp only [mlStmts, List.mem_append] at hn ⊢; exact .inr hn)) he _ _ _ h2
+
+theorem cCases_c : ∀ (cs : Cases) (lb : Nat) (sw : String) (nf : Bool), cgCases lv sw nf cs = true → (∀ n ∈ mlCases cs, n ∈ cx.defs) →
+    CasesC cx fuel sw nf cs (fun endL bps st => cCases [] lb endL cs bps st)
+  | .nil, lb, sw, nf, _, hu => by
     intro env he endL bps st s st' s' _ _ _ h
     simp only [cCases, pure_ok, Prod.mk.injEq] at h
     obtain ⟨rfl, rfl⟩ := h
-    refine ⟨SameStk.refl _, id, [], [], by simp, by simp, fun x hx => by simp at hx, fun x hx => by simp at hx, fun hw => ?_⟩
+    refine ⟨SameStk.refl _, id, [], [], by simp, by simp, fun x hx => by simp at hx, fun x hx => by simp at hx, fun hw FI _ => ?_⟩
     rw [hw]
     simp only [wSrc, toSrcCases]
-    exact sw_nil cx fuel env endL _ _ _ _
-  | .cons true n ps body r, lb, sw, hg, hu => by
+    exact sw_nil cx fuel env endL _ _ _ FI _
+  | .cons true n ps body r, lb, sw, nf, hg, hu => by
     intro env he endL bps st s st' s' hb hw hnd h
-    simp only [cgCases, Bool.and_eq_true, Bool.not_eq_true'] at hg
+    obtain ⟨_, _, hgb, hgr⟩ := cgCases_cons hg
     simp only [cCases, bind_ok] at h
     obtain ⟨st1, s1, h1, h2⟩ := h
     have hcr : countDefaults r = 0 := by
       simp only [countDefaults, if_true] at hnd
       omega
-    have hwn : hasNone st.waiting = false := by
-      cases hh : hasNone st.waiting with
-      | false => rfl
-      | true => rw [hh] at hnd; simp only [countDefaults, if_true] at hnd; omega
     cases body with
     | nil =>
+      simp only [Stmts.isNil, if_true] at hgr
       simp only [Stmts.isNil, defaultStep, ↓reduceIte, pure_ok, Prod.mk.injEq] at h1
       obtain ⟨rfl, rfl⟩ := h1
       have hw1 : WaitOK (st.wait none).waiting := by
@@ -171,44 +195,52 @@ theorem cCases_c : ∀ (cs : Cases) (lb : Nat) (sw : String), cgCases lv sw cs =
         rcases hbp with hbp | hbp
         · exact hw bp hbp
         · cases hbp
-      obtain ⟨e, nnD, Hn, Cn, hH, hC, n1, n2, hsem⟩ := cCases_c r _ sw hg.2 (fun n hn => hu n (by simp [mlStmt, mlStmts, mlElifs, mlCases, hn])) env he endL bps (st.wait none) _ st' s' hb hw1
+      obtain ⟨e, nnD, Hn, Cn, hH, hC, n1, n2, hsem⟩ := cCases_c r _ sw nf hgr (fun n hn => hu n (by simp [mlStmt, mlStmts, mlElifs, mlCases, hn])) env he endL bps (st.wait none) _ st' s' hb hw1
         (by rw [hcr]; split <;> omega) h2
-      refine ⟨e, nnD, Hn, Cn, hH, hC, n1, n2, fun hw' => ?_⟩
-      have := hsem hw'
+      refine ⟨e, nnD, Hn, Cn, hH, hC, n1, n2, fun hw' FI hFI => ?_⟩
+      have := hsem hw' FI hFI
       simpa [SwSt.wait, wSrc_append, wSrc, toSrcCases, toSrcStmts] using this
     | cons b0 br =>
+      simp only [Stmts.isNil, Bool.false_eq_true, if_false] at hgr
       simp only [Stmts.isNil] at h1
-      obtain ⟨e1, hw1, hs, d1, sL, eB, ops, sa, sb, n0, hH1, hC1, hD1, ws, hP, la, ca, hsb⟩ :=
-        defaultStep_c cx fuel endL (.cons b0 br) (cStmts_ret lv _ lb hg.1.2 hg.1.1.2)
-          (fun env' he' => cStmts_c (.cons b0 br) lb hg.1.2 (fun n hn => hu n (by rw [mlCases]; exact List.mem_append_left _ hn)) env' he') hw h1
-      obtain ⟨e2, nnD, Hr, Cr, hH2, hC2, n1, n2, hsem⟩ := cCases_c r _ sw hg.2 (fun n hn => hu n (by simp [mlStmt, mlStmts, mlElifs, mlCases, hn])) env he endL bps st1 s1 st' s' hb
+      obtain ⟨e1, hw1, hs, d1, sL, eB, ops, sa, sb, n0, hH1, hC1, hD1, ws, hrun, hP, la, ca, hsb⟩ :=
+        defaultStep_c cx fuel endL (.cons b0 br)
+          (fun env' he' => cStmts_c (.cons b0 br) lb hgb (fun n hn => hu n (by rw [mlCases]; exact List.mem_append_left _ hn)) env' he') hw h1
+      obtain ⟨e2, nnD, Hr, Cr, hH2, hC2, n1, n2, hsem⟩ := cCases_c r _ sw _ hgr (fun n hn => hu n (by simp [mlStmt, mlStmts, mlElifs, mlCases, hn])) env he endL bps st1 s1 st' s' hb
         (by rw [hw1]; intro bp hbp; simp at hbp) (by rw [hw1, hcr]; simp [hasNone]) h2
       refine ⟨e1.trans e2, fun hd => nnD (by rw [hD1]; exact waitSem_nonone ws (noNone_jump _ _)), hs ++ Hr,
         ([LItem.label sL false] ++ ops ++ [LItem.label eB false]) ++ Cr, by rw [hH2, hH1, List.append_assoc],
         by rw [hC2, hC1, List.append_assoc], ws.nonone.append n1,
-        (((noNone_label _ _).append (hP {} (envOK_empty cx)).nonone).append (noNone_label _ _)).append n2, fun hw' => ?_⟩
-      have hR := (hsem hw').stk e1.1 e1.2
+        (((noNone_label _ _).append (hP {} (envOK_empty cx)).nonone).append (noNone_label _ _)).append n2, fun hw' FI _ => ?_⟩
+      have hR := (hsem hw' (falls ops = true) (fun hnf hf => by
+        have := cStmts_falls (.cons b0 br) lb (Nat.zero_le _) hgb (fun n hn => hu n (by rw [mlCases]; exact List.mem_append_left _ hn)) hnf _ _ _ hrun
+        rw [this] at hf; cases hf)).stk e1.1 e1.2
       rw [hw1, hD1] at hR
       simp only [wSrc] at hR
       simp only [toSrcCases]
       exact sw_default cx fuel env he endL s.loops s.cases st.waiting hs st.defaultOps d1 sL eB ops sa sb (.cons b0 br) n0 hP la ca ws
         (hsb.trans e2.3) hR
-        (fun k nt b => trCases_nodefault fuel (brkEnv env k) he.1 sw r k nt b (countDefaults_zero r hcr))
-  | .cons false n ps body r, lb, sw, hg, hu => by
+        (fun k nt b => trCases_nodefault fuel (brkEnv env k) he.1 sw r k nt b (countDefaults_zero r hcr)) FI
+  | .cons false n ps body r, lb, sw, nf, hg, hu => by
     intro env he endL bps st s st' s' hb hw hnd h
-    simp only [cgCases, Bool.false_or, Bool.and_eq_true, Bool.not_eq_true'] at hg
+    obtain ⟨hnm, hlx, hgb, hgr⟩ := cgCases_cons hg
+    have hnm' : isTest n = true ∧ isTest (caseName sw n) = true := by
+      rcases hnm with h0 | h0
+      · cases h0
+      · exact h0
     cases bps with
     | nil => exact absurd hb (by simp [BpsOK])
     | cons bp bps' =>
     simp only [BpsOK] at hb
     obtain ⟨hbn, hbp, hbpos, hb'⟩ := hb
-    have htest : isTest bp.name = true := by rw [hbn]; exact hg.1.1.1.2
+    have htest : isTest bp.name = true := by rw [hbn]; exact hnm'.2
     simp only [cCases, bind_ok] at h
     obtain ⟨st1, s1, h1, h2⟩ := h
     have hnd' : (if hasNone st.waiting then 1 else 0) + countDefaults r ≤ 1 := by
       simpa [countDefaults] using hnd
     cases body with
     | nil =>
+      simp only [Stmts.isNil, if_true] at hgr
       simp only [Stmts.isNil, caseStep, ↓reduceIte, pure_ok, Prod.mk.injEq] at h1
       obtain ⟨rfl, rfl⟩ := h1
       have hw1 : WaitOK (st.wait (some bp)).waiting := by
@@ -223,35 +255,66 @@ theorem cCases_c : ∀ (cs : Cases) (lb : Nat) (sw : String), cgCases lv sw cs =
         induction w with
         | nil => rfl
         | cons x w ih => cases x <;> simp [hasNone, ih]
-      obtain ⟨e, nnD, Hn, Cn, hH, hC, n1, n2, hsem⟩ := cCases_c r _ sw hg.2 (fun n hn => hu n (by simp [mlStmt, mlStmts, mlElifs, mlCases, hn])) env he endL bps' (st.wait (some bp)) _ st' s' hb' hw1
+      obtain ⟨e, nnD, Hn, Cn, hH, hC, n1, n2, hsem⟩ := cCases_c r _ sw nf hgr (fun n hn => hu n (by simp [mlStmt, mlStmts, mlElifs, mlCases, hn])) env he endL bps' (st.wait (some bp)) _ st' s' hb' hw1
         (by rw [hn1]; exact hnd') h2
-      refine ⟨e, nnD, Hn, Cn, hH, hC, n1, n2, fun hw' => ?_⟩
-      have := hsem hw'
+      refine ⟨e, nnD, Hn, Cn, hH, hC, n1, n2, fun hw' FI hFI => ?_⟩
+      have := hsem hw' FI hFI
       simpa [SwSt.wait, wSrc_append, wSrc, toSrcCases, toSrcStmts, caseName, hbn, hbp] using this
     | cons b0 br =>
+      simp only [Stmts.isNil, Bool.false_eq_true, if_false] at hgr
       simp only [Stmts.isNil] at h1
-      obtain ⟨e1, hw1, hs, d1, sL, eB, ops, sa, sb, n0, hH1, hC1, hD1, ws, hP, la, ca, hsb⟩ :=
-        caseStep_c cx fuel endL bp hbpos (.cons b0 br) (cStmts_ret lv _ lb hg.1.2 hg.1.1.2)
-          (fun env' he' => cStmts_c (.cons b0 br) lb hg.1.2 (fun n hn => hu n (by rw [mlCases]; exact List.mem_append_left _ hn)) env' he') hw h1
+      obtain ⟨e1, hw1, hs, d1, ops, sa, sb, n0, hD1, hrun, hP, la, ca, hsb, hcase⟩ :=
+        caseStep_c cx fuel endL bp hbpos (.cons b0 br)
+          (fun env' he' => cStmts_c (.cons b0 br) lb hgb (fun n hn => hu n (by rw [mlCases]; exact List.mem_append_left _ hn)) env' he') hw h1
       have hcr : hasNone st.waiting = true → countDefaults r = 0 := by
         intro hh; rw [hh] at hnd'; simp only [if_true] at hnd'; omega
-      obtain ⟨e2, nnD, Hr, Cr, hH2, hC2, n1, n2, hsem⟩ := cCases_c r _ sw hg.2 (fun n hn => hu n (by simp [mlStmt, mlStmts, mlElifs, mlCases, hn])) env he endL bps' st1 s1 st' s' hb'
+      obtain ⟨e2, nnD, Hr, Cr, hH2, hC2, n1, n2, hsem⟩ := cCases_c r _ sw _ hgr (fun n hn => hu n (by simp [mlStmt, mlStmts, mlElifs, mlCases, hn])) env he endL bps' st1 s1 st' s' hb'
         (by rw [hw1]; intro bp hbp; simp at hbp) (by
           rw [hw1]; simp only [hasNone, Bool.false_eq_true, if_false, Nat.zero_add]
           split at hnd' <;> omega) h2
-      refine ⟨e1.trans e2, fun hd => nnD (by rw [hD1]; exact waitSem_nonone ws hd),
-        (hs ++ [LItem.ljump ⟨n0, bp.name, bp.params⟩ (some sL)]) ++ Hr,
-        ([LItem.label sL false] ++ ops ++ [LItem.label eB false]) ++ Cr, by rw [hH2, hH1, List.append_assoc],
-        by rw [hC2, hC1, List.append_assoc], (ws.nonone.append (noNone_jump _ _)).append n1,
-        (((noNone_label _ _).append (hP {} (envOK_empty cx)).nonone).append (noNone_label _ _)).append n2, fun hw' => ?_⟩
-      have hR := (hsem hw').stk e1.1 e1.2
-      rw [hw1, hD1] at hR
-      simp only [wSrc] at hR
-      simp only [toSrcCases]
-      have := sw_case cx fuel env he endL s.loops s.cases st.waiting hs st.defaultOps d1 sL eB ops sa sb (.cons b0 br) n0 bp htest hP la ca ws
-        (hsb.trans e2.3) hR
-        (fun hh k nt b => trCases_nodefault fuel (brkEnv env k) he.1 sw r k nt b (countDefaults_zero r (hcr hh)))
-      simpa [caseName, hbn, hbp] using this
+      rcases hcase with ⟨sL, eB, hH1, hC1, ws⟩ | ⟨l, eB, hlone, hH1, hC1, ws⟩
+      · refine ⟨e1.trans e2, fun hd => nnD (by rw [hD1]; exact waitSem_nonone ws hd),
+          (hs ++ [LItem.ljump ⟨n0, bp.name, bp.params⟩ (some sL)]) ++ Hr,
+          ([LItem.label sL false] ++ ops ++ [LItem.label eB false]) ++ Cr, by rw [hH2, hH1, List.append_assoc],
+          by rw [hC2, hC1, List.append_assoc], (ws.nonone.append (noNone_jump _ _)).append n1,
+          (((noNone_label _ _).append (hP {} (envOK_empty cx)).nonone).append (noNone_label _ _)).append n2, fun hw' FI _ => ?_⟩
+        have hR := (hsem hw' (falls ops = true) (fun hnf hf => by
+          have := cStmts_falls (.cons b0 br) lb (Nat.zero_le _) hgb (fun n hn => hu n (by rw [mlCases]; exact List.mem_append_left _ hn)) hnf _ _ _ hrun
+          rw [this] at hf; cases hf)).stk e1.1 e1.2
+        rw [hw1, hD1] at hR
+        simp only [wSrc] at hR
+        simp only [toSrcCases]
+        have := sw_case cx fuel env he endL s.loops s.cases st.waiting hs st.defaultOps d1 sL eB ops sa sb (.cons b0 br) n0 bp htest hP la ca ws
+          (hsb.trans e2.3) hR
+          (fun hh k nt b => trCases_nodefault fuel (brkEnv env k) he.1 sw r k nt b (countDefaults_zero r (hcr hh))) FI
+        simpa [caseName, hbn, hbp] using this
+      · -- folded: the body is a single exit statement, and nothing falls into its block
+        have hlx' : loneExit (.cons b0 br) = true := by
+          cases hq : loneExit (.cons b0 br) with
+          | true => rfl
+          | false =>
+            have : loneJump ops = none := cStmts_ret lv (.cons b0 br) lb hgb hq _ _ _ hrun
+            rw [hlone] at this; cases this
+        have hnf : nf = true := by
+          rcases hlx with h0 | h0 | h0
+          · cases h0
+          · rw [hlx'] at h0; cases h0
+          · exact h0
+        refine ⟨e1.trans e2, fun hd => nnD (by rw [hD1]; exact waitSem_nonone ws hd),
+          (hs ++ [LItem.ljump ⟨n0, bp.name, bp.params⟩ (some l)]) ++ Hr,
+          [LItem.label eB false] ++ Cr, by rw [hH2, hH1, List.append_assoc],
+          by rw [hC2, hC1, List.append_assoc], (ws.nonone.append (noNone_jump _ _)).append n1,
+          (noNone_label _ _).append n2, fun hw' FI hFI => ?_⟩
+        have hR := (hsem hw' False (fun _ hf => hf)).stk e1.1 e1.2
+        rw [hw1, hD1] at hR
+        simp only [wSrc] at hR
+        simp only [toSrcCases]
+        have := (sw_fold cx fuel env he endL s.loops s.cases st.waiting hs st.defaultOps d1 l eB ops sa sb (.cons b0 br) n0 bp htest hlone hP la ca ws
+          (hsb.trans e2.3) hR
+          (fun hh k nt b => trCases_nodefault fuel (brkEnv env k) he.1 sw r k nt b (countDefaults_zero r (hcr hh)))).weaken
+          (FI := FI) (fun hf => hFI hnf hf)
+        simpa [caseName, hbn, hbp] using this
+
 end
 
 end main
